@@ -415,9 +415,11 @@ class Client(Peer):
        ('shutdown_wr',) ('close',) ('stop_reading',) ('wait_time', t)
     """
 
-    def __init__(self, world, idx, script, start_turn=0, read_limit=None, send_on_connect=None, preclose=False):
+    def __init__(self, world, idx, script, start_turn=0, read_limit=None, send_on_connect=None, preclose=False,
+                 faults_off=False):
         self.send_on_connect = send_on_connect
         self.preclose = preclose
+        self.faults_off = faults_off      # from the moment this client connects, no more faults / short writes are injected
         self.idx = idx
         self.script = list(script)
         self.pc = 0
@@ -437,6 +439,8 @@ class Client(Peer):
         self.reading = True
 
     def connect(self):
+        if self.faults_off:
+            self.w.faults_disabled = True
         a, b = self.w.mkpair()
         Peer.__init__(self, self.w, self.name, a)
         self.read_limit = self.read_limit
@@ -779,6 +783,8 @@ class WorldImpl(World):
     def fault_ok(self, role, addr=None):
         """Faults (kind F) and short writes may be restricted to some connections of a scenario:
         features['_fault_clients'] = set of client names, ['_fault_addrs'] = set of upstream addrs."""
+        if getattr(self, 'faults_disabled', False):
+            return False
         fc = self.scn.features.get('_fault_clients')
         fa = self.scn.features.get('_fault_addrs')
         if fc is None and fa is None:
@@ -1095,7 +1101,7 @@ class WorldImpl(World):
                 scn.setup(self)
             for i, c in enumerate(scn.clients):
                 self.clients.append(Client(self, i, c['script'], c.get('start_turn', 0), c.get('read_limit'),
-                                           c.get('send_on_connect'), c.get('preclose', False)))
+                                           c.get('send_on_connect'), c.get('preclose', False), c.get('faults_off', False)))
             self.in_env = False
             import signal
             use_alarm = threading.current_thread() is threading.main_thread()
